@@ -26,7 +26,7 @@ func loadAll(repo, extDir string, patterns []string) (*Session, error) {
 	if err != nil {
 		return nil, err
 	}
-	cs := &ContractSet{ByKey: map[string]*Contract{}}
+	cs := &ContractSet{ByKey: map[string]*Contract{}, Preds: map[string]bool{}}
 	// external contracts: synthetic package
 	if extDir != "" {
 		files, _ := filepath.Glob(filepath.Join(extDir, "*.go"))
@@ -145,6 +145,9 @@ func cmdFn(args []string) {
 	bad := 0
 	for _, ct := range s.CS.List {
 		if ct.Kind != "func" && ct.Kind != "lemma" {
+			continue
+		}
+		if ct.Inline && len(ct.Ensures) == 0 {
 			continue
 		}
 		match := false
